@@ -373,64 +373,94 @@ impl PubSubManager {
 }
 
 /// Check if a pattern matches a channel name
-/// Supports glob-style patterns with * and ?
+/// Supports Redis glob-style patterns: `*`, `?`, character classes `[abc]`, `[a-z]`, `[^x]`
+/// and `\` to take the next pattern byte literally.
 pub fn pattern_matches(pattern: &[u8], channel: &[u8]) -> bool {
-    let mut p_idx = 0;
-    let mut c_idx = 0;
-    let mut star_idx = None;
-    let mut star_match_idx = 0;
+    let mut p = 0;
+    let mut c = 0;
     
-    while c_idx < channel.len() {
-        if p_idx < pattern.len() {
-            match pattern[p_idx] {
-                b'?' => {
-                    // ? matches any single character
-                    p_idx += 1;
-                    c_idx += 1;
-                    continue;
+    while p < pattern.len() {
+        match pattern[p] {
+            b'*' => {
+                // collapse consecutive stars
+                while p + 1 < pattern.len() && pattern[p + 1] == b'*' {
+                    p += 1;
                 }
-                b'*' => {
-                    // * matches zero or more characters
-                    star_idx = Some(p_idx);
-                    star_match_idx = c_idx;
-                    p_idx += 1;
-                    continue;
+                if p + 1 == pattern.len() {
+                    return true;
                 }
-                b'\\' if p_idx + 1 < pattern.len() => {
-                    // Escaped character
-                    if pattern[p_idx + 1] == channel[c_idx] {
-                        p_idx += 2;
-                        c_idx += 1;
-                        continue;
+                // try every split point for the rest of the pattern
+                for start in c..=channel.len() {
+                    if pattern_matches(&pattern[p + 1..], &channel[start..]) {
+                        return true;
                     }
                 }
-                _ => {
-                    // Regular character match
-                    if pattern[p_idx] == channel[c_idx] {
-                        p_idx += 1;
-                        c_idx += 1;
-                        continue;
+                return false;
+            }
+            b'?' => {
+                if c >= channel.len() {
+                    return false;
+                }
+                c += 1;
+                p += 1;
+            }
+            b'[' => {
+                if c >= channel.len() {
+                    return false;
+                }
+                p += 1;
+                let negate = p < pattern.len() && pattern[p] == b'^';
+                if negate {
+                    p += 1;
+                }
+                let mut matched = false;
+                while p < pattern.len() && pattern[p] != b']' {
+                    if pattern[p] == b'\\' && p + 1 < pattern.len() {
+                        p += 1;
+                        if pattern[p] == channel[c] {
+                            matched = true;
+                        }
+                    } else if p + 2 < pattern.len() && pattern[p + 1] == b'-' && pattern[p + 2] != b']' {
+                        let (mut low, mut high) = (pattern[p], pattern[p + 2]);
+                        if low > high {
+                            std::mem::swap(&mut low, &mut high);
+                        }
+                        if channel[c] >= low && channel[c] <= high {
+                            matched = true;
+                        }
+                        p += 2;
+                    } else if pattern[p] == channel[c] {
+                        matched = true;
                     }
+                    p += 1;
+                }
+                if matched == negate {
+                    return false;
+                }
+                c += 1;
+                if p < pattern.len() {
+                    p += 1; // closing bracket
                 }
             }
-        }
-        
-        // No match, try to backtrack to last *
-        if let Some(star_pos) = star_idx {
-            p_idx = star_pos + 1;
-            star_match_idx += 1;
-            c_idx = star_match_idx;
-        } else {
-            return false;
+            b'\\' if p + 1 < pattern.len() => {
+                p += 1;
+                if c >= channel.len() || pattern[p] != channel[c] {
+                    return false;
+                }
+                c += 1;
+                p += 1;
+            }
+            literal => {
+                if c >= channel.len() || literal != channel[c] {
+                    return false;
+                }
+                c += 1;
+                p += 1;
+            }
         }
     }
     
-    // Skip trailing * in pattern
-    while p_idx < pattern.len() && pattern[p_idx] == b'*' {
-        p_idx += 1;
-    }
-    
-    p_idx == pattern.len()
+    c == channel.len()
 }
 
 /// Format a pub/sub message frame
